@@ -69,7 +69,7 @@ class PROP(Prop):
         if k in ("rfc", "pfc"):
             return None if r == str(m["fc"]) else "function_code() = %r, want %d" % (r, m["fc"])
         if k == "reqwire":
-            w = r.split(" w=")[-1]
+            w = r.split(" w=")[-1].split(" q=")[0]
             return None if len(w) >= 16 and int(w[14:16], 16) == m["fc"] else "first PDU byte of encoded request != function code %d: %r" % (m["fc"], r[:80])
         if k == "rspwire":
             ws = [t for t in r.split(",") if t.startswith("W:")]
